@@ -2,7 +2,7 @@
 C08 (stages after parsing), the operation type printer, part B: the walk lemma.
 
 If `check_selection_set` walks a selection set with the static type `ct` in scope and reports nothing (up to
-`UnknownVariable` under `without_variable_checks`), then — under `SchemaValid`, `ifaceOkB`, `skipIncludeB` — there is a
+`UnknownVariable` under `without_variable_checks`), then — under `schemaOkB`, `ifaceOkB`, `skipIncludeB` — there is a
 nesting bound `Dp` such that every selection of the set
   * has no fragment cycle and only defined spreads within `Dp` levels (`fitsS`), and
   * passes C01's validity check `selOkB` for EVERY possible object type of `ct`
@@ -40,7 +40,7 @@ theorem isComposite_of_directFields {S : Schema} {n : Name} {ft : TypeDef} (hn :
   cases hk : ft.kind <;> simp [hk] at h ⊢
 
 section
-variable {S : Schema} {D : Doc} (hS : SchemaValid S) (hI : ifaceOkB S = true) (hSI : skipIncludeB S = true)
+variable {S : Schema} {D : Doc} (hS : schemaOkB S = true) (hI : ifaceOkB S = true) (hSI : skipIncludeB S = true)
   (hC : CondsDefined S D) {A : ErrKind → Bool} (hA : Admissible A)
 include hS hI hSI hC hA
 
